@@ -76,13 +76,39 @@ class LockMonitor(Ext):
                 pass
         return out
 
+    def own_release_pending(self, key, lid):
+        """Is there, between the applied index of the node of this client and the committed end of the log, a release of
+        this lock in this client's name?  (Then the client's belief rests on a replica that lags behind its own release.)"""
+        import pysyncobj.pickle as PK
+        sim = self.sim
+        p = sim.procs.get(key)
+        c = sim.clients.get(key)
+        if p is None or c is None:
+            return False
+        cid = getattr(c, '_ReplLockManager__selfID', None)
+        for pos in range(p.obj.raftLastApplied + 1, self.mon.maxc + 1):
+            e = self.mon.committed.get(pos)
+            if e is None or e[1][:1] != b'\x00':
+                continue
+            try:
+                d = PK.loads(e[1][1:])
+                args = list(d[1]) if isinstance(d, tuple) and len(d) > 1 else []
+            except Exception:
+                continue
+            if len(args) == 2 and args[0] == lid and args[1] == cid:
+                return True
+        return False
+
     def after_step(self, p, action):
         sim = self.sim
         for lid in sim.lock_ids:
             h = self.holders(lid)
             self.mon.obs['exclusion_checks'] += 1
             if len(h) > 1:
-                raise Violation('C16', 'two_holders', 'lock %r is considered held by %r at t=%.3f' % (lid, h, CLK.now), n=len(h))
+                stale = [k for k in h if self.own_release_pending(k, lid)]
+                raise Violation('C16', 'two_holders', 'lock %r is considered held by %r at t=%.3f%s' % (
+                    lid, h, CLK.now, ('; the replica of %r has not yet applied a committed release issued in its own name' % stale) if stale else ''),
+                    n=len(h), holder_has_not_applied_its_own_committed_release=bool(stale))
             if h:
                 self.mon.sit['lock_held'] += 1
         # a client that was told "failed" must not consider the lock its own afterwards (until it tries again)
@@ -201,6 +227,17 @@ class LockSim(Sim):
                         raise Violation('C16', 'late_acquisition_reported_true',
                                         'tryAcquire(%r) on %s took %.3fs (> autoUnlockTime/2 = %.3f) and was still reported as acquired'
                                         % (rec['lock'], rec['key'], CLK.now - rec['t'], self.auto_unlock / 2.0))
+                if res and not late and err == 0 and rec['lock'] not in getattr(c, '_ReplLockManager__releasing', {}):
+                    # told "acquired" (in time, and no release of ours has been issued since): this node has just applied
+                    # that acquisition, so its replica of the lock table has to list this client as the holder
+                    impl = getattr(c, '_ReplLockManager__lockImpl')
+                    impl = getattr(impl, '_impl', impl)
+                    tab = getattr(impl, '_ReplLockManagerImpl__locks', {})
+                    holder = tab.get(rec['lock'])
+                    self.mon.obs['grant_vs_table_checks'] += 1
+                    if holder is None or holder[0] != getattr(c, '_ReplLockManager__selfID', None):
+                        raise Violation('C16', 'told_acquired_but_not_holder', 'tryAcquire(%r) on %s was answered with True, but the lock table of '
+                                        'that node lists %r as the holder' % (rec['lock'], rec['key'], holder[0] if holder else None))
                 mine = [t for t in self.lm.tries if t['key'] == rec['key'] and t['lock'] == rec['lock']]
                 if res:
                     self.lm.told_failed.pop((rec['key'], rec['lock']), None)
